@@ -25,8 +25,8 @@ def nontrivial(evs):
 
 
 BASE = {
-    "specdir": "ring",
-    "driver": {"cmd": "ring"},
+    "specdir": "hashring",
+    "driver": {"cmd": "hashring"},
     "trace": {"module": "T_Ring", "cfg": "T_Ring.cfg", "heap": "4g", "timeout": 900},
     "chunk": 150000,
     "signature": signature,
@@ -50,7 +50,7 @@ def drift(ctx, leg):
     tp = os.path.join(ctx.work, "trace.ndjson")
     if not os.path.exists(tp):
         return
-    tr = core.validate_trace("ring", "T_Ring", "T_Ring_exact.cfg", tp, heap="4g", timeout=900)
+    tr = core.validate_trace("hashring", "T_Ring", "T_Ring_exact.cfg", tp, heap="4g", timeout=900)
     d = ctx.notes.setdefault("drift", [])
     if not tr.accepted:
         d.append({"leg": leg, "line": tr.hwm, "event": tr.bad_line})
@@ -61,21 +61,19 @@ def drift(ctx, leg):
 def legs(quick):
     D = {"workers": 4, "heap": "4g"}
     design = [dict(D, module="MC_Ring", cfg="MC_I_Ring_quick.cfg", thorough_cfg="MC_I_Ring.cfg"),
-              dict(D, module="MC_Ring", cfg="MC_I_Ring_quick1.cfg", thorough_cfg="MC_I_Ring_p1.cfg")]
-    if not quick:
-        design.append(dict(D, module="MC_Ring", cfg="MC_I_Ring_p1b.cfg"))
+              dict(D, module="MC_Ring", cfg="MC_I_Ring_quick1.cfg", thorough_cfg="MC_I_Ring_p1b.cfg")]
     out = [dict(BASE, design=design,
                 gen={"module": "Gen_Ring", "cfg": "Gen_cover_q.cfg", "thorough_cfg": "Gen_cover.cfg", "workers": 4,
-                     "max": 600, "thorough_max": 50000},
-                n_random=(150, 6000)),
+                     "max": 600, "thorough_max": 20000},
+                n_random=(150, 3000)),
            dict(BASE, design=[],
                 gen={"module": "Gen_Ring", "cfg": "Gen_sim.cfg", "simulate": {"num": 80, "depth": 40},
-                     "thorough_simulate": {"num": 4000, "depth": 40}},
+                     "thorough_simulate": {"num": 1500, "depth": 40}},
                 n_random=(0, 0)),
            # large rings with the default hash: thousands of virtual nodes, removals and several insertions between
            # lookup batches, every batch repeated on a ring built fresh from the current member set
            dict(BASE, design=[], gen=None, n_random=(0, 0),
-                driver={"cmd": "ring", "env": {"VERIF_RING_BIG": "3" if quick else "80"}})]
+                driver={"cmd": "hashring", "env": {"VERIF_RING_BIG": "3" if quick else "30"}})]
     return out
 
 
